@@ -23,7 +23,7 @@ Case (JSON):
    "worker": "debug" | "cf", "log": bool                  # free-running case under an unmodified worker (run_free)
    "policy": {"seed": n, "style": "random" | "fifo" | "greedy" | "lazy" | "failslast"},
    "two": {"rerun": bool, "ro": bool, "pre_fail": [tags]}}  # TWO-PASS case (pre-existing results): the workflow is first
-                                                          #   submitted under the plain cf worker (generation 1, bodies in
+                                                          #   submitted under a plain worker (generation 1, bodies in
                                                           #   `pre_fail` raise), then - this is the observed submission - again
                                                           #   (generation 2, `fail`) over the same cache_root, or with a fresh
                                                           #   cache_root and the first one as readonly cache (`ro`), with
@@ -628,8 +628,9 @@ def run_controlled(case: dict, scratch: Path) -> dict:
 
 
 def first_pass(case: dict, mod, uid: str, ctl_dir: Path, cache_root: Path) -> dict:
-    """the FIRST submission of a two-pass case: plain cf worker, no limit, generation 1, bodies in `pre_fail` raise.
-    Leaves its results in `cache_root`; returns what it did (body log, cache)."""
+    """the FIRST submission of a two-pass case: no limit, generation 1, bodies in `pre_fail` raise; plain cf worker when
+    bodies fail (it goes on with the independent jobs, so that the cache ends up complete: every job not downstream of a
+    failure has a result), else the debug worker.  Leaves its results in `cache_root`; returns what it did."""
     from pydra.engine.submitter import Submitter
     from pydra.engine.workflow import Workflow
 
@@ -638,7 +639,8 @@ def first_pass(case: dict, mod, uid: str, ctl_dir: Path, cache_root: Path) -> di
     wf = getattr(mod, f"W_{uid}")(ctl=str(ctl_dir), mode="x")
     outcome = "ok"
     try:
-        with Submitter(worker="cf", n_procs=2, cache_root=cache_root) as sub:
+        kw = {"worker": "cf", "n_procs": 2} if two.get("pre_fail") else {"worker": "debug"}
+        with Submitter(cache_root=cache_root, **kw) as sub:
             sub(wf, raise_errors=True)
     except Exception as e:  # noqa: BLE001
         outcome = type(e).__name__
@@ -870,6 +872,36 @@ def gen_graph(rng, nmin=2, nmax=6, split_p=0.35, allow_keep=True, allow_dup=True
                 keep.append(nm)
         nodes.append(nd)
     return {"nodes": nodes, "keep_state": keep}
+
+
+def gen_two(rng, nmin=2, nmax=5, shape: dict | None = None) -> dict:
+    """a TWO-PASS case (pre-existing results): static workflow, first submission with some failing bodies, second one
+    with `rerun` / over a readonly cache"""
+    c = shape if shape is not None else gen_graph(rng, nmin, nmax, split_p=0.3, allow_keep=False, allow_dup=False, allow_empty=False)
+    for nd in c["nodes"]:
+        if nd.get("split") is not None and len(nd["split"]) > 2:
+            nd["split"] = nd["split"][:2]
+    tags = all_tags(c)
+    kind = rng.choice(["rerun", "rerun", "rerun-ro", "errored", "errored", "errored-ro", "rerun+errored"])
+    pre = []
+    if "errored" in kind:
+        pre = [t for t in tags if rng.random() < 0.3] or [rng.choice(tags)]
+    c["two"] = {"rerun": kind.startswith("rerun"), "ro": kind.endswith("-ro"), "pre_fail": pre}
+    c["k"] = rng.choice([None, None, 1, 2, 2])
+    c["fail"] = [rng.choice(tags)] if rng.random() < 0.1 else []
+    c["policy"] = {"seed": rng.randrange(10**6), "style": rng.choice(["random", "random", "lazy", "greedy", "fifo"])}
+    c["n_procs"] = min(len(tags), 8)
+    return c
+
+
+def d71(case: dict, obs: dict):
+    """match rule of the known finding D71: a submission over pre-existing results in which some job has to be executed
+    although a result of it is on disk (`rerun`, or an errored result).  (`Ctx.judge` attributes a failed verdict to it
+    only if the model of the unchanged code reproduces the whole observation.)"""
+    two = case.get("two")
+    if two and (two.get("rerun") or two.get("pre_fail")):
+        return "D71"
+    return None
 
 
 def all_tags(case: dict) -> list[str]:
@@ -1207,7 +1239,7 @@ def njobs(case: dict) -> int:
 def case_key(case: dict, obs: dict) -> str:
     return json.dumps(
         {"n": case["nodes"], "ks": case.get("keep_state"), "k": case.get("k"), "f": sorted(case.get("fail") or []),
-         "v": case.get("vanish"), "s": obs.get("schedule")},
+         "v": case.get("vanish"), "s": obs.get("schedule"), "two": case.get("two")},
         sort_keys=True,
     )
 
@@ -1245,13 +1277,16 @@ def explore(ctx, cases: list[dict], spec, what: str, nproc: int | None = None, d
         if iv.get("outcome") == "rejected":
             mv, mt = None, []  # the workflow was never constructed: outside the scheduler model
             ctx.count("back edge rejected at construction (not modelled)")
-        ok, detail = spec(c, o)
+        ok, detail = two_oracle(c, o) if c.get("two") and not getattr(spec, "own_two_pass", False) else spec(c, o)
         rec = dict(c)
         rec["script"] = o.get("schedule")  # replayable: the recorded schedule
         ctx.count("outcome:" + str(iv.get("outcome")))
         ctx.count(f"jobs={njobs(c)}")
         ctx.count(f"k={c.get('k')}")
         ctx.count("style:" + str((c.get("policy") or {}).get("style", "script")))
+        if c.get("two"):
+            ctx.count("two-pass:" + ("rerun" if c["two"].get("rerun") else "no-rerun") + ("+errored" if c["two"].get("pre_fail") else "")
+                      + ("+readonly" if c["two"].get("ro") else ""))
         if mv is not None:
             ctx.count("tables_agree" if it == mt else "tables_differ")  # model fidelity, informational
         style = (c.get("policy") or {}).get("style", "script")
